@@ -361,8 +361,14 @@ func formMessage(html []byte) ([]byte, error) {
 func (c *Ctx) xmlSignedMessages() {
 	keys := []string{"sp", "rsa1024", "ec256", "ec384", "ec521"}
 	for _, m := range sigMethods {
-		for _, k := range keys {
+		for ki, k := range keys {
 			s := c.spFor(idpEndpoints[0], idpEndpoints[0], k, m, true)
+			noSLO := (ki+len(m))%2 == 1
+			if noSLO {
+				// an IdP that publishes no single-logout endpoint: logout messages have no Destination, and must still verify
+				s.IDPMetadata.IDPSSODescriptors[0].SingleLogoutServices = nil
+			}
+			c.count("c13-idp-slo-endpoints", map[bool]string{true: "none", false: "both"}[noSLO])
 			saml.RandReader = &detReader{c: c}
 			now := baseTime
 			saml.TimeNow = func() time.Time { return now }
@@ -397,6 +403,20 @@ func (c *Ctx) xmlSignedMessages() {
 						return nil, err
 					}
 					return inflateB64(u.Query().Get("SAMLRequest"))
+				}},
+				{"LogoutRequest/direct-no-destination", func() ([]byte, error) {
+					r, err := s.MakeLogoutRequest("", "alice")
+					if err != nil {
+						return nil, err
+					}
+					return elBytes(r.Element()), nil
+				}},
+				{"LogoutResponse/direct-no-destination", func() ([]byte, error) {
+					r, err := s.MakeLogoutResponse("", "id-x")
+					if err != nil {
+						return nil, err
+					}
+					return elBytes(r.Element()), nil
 				}},
 				{"ArtifactResolve", func() ([]byte, error) {
 					r, err := s.MakeArtifactResolveRequest("artifact")
